@@ -377,4 +377,5 @@ def invariant(rec):
                      'all classes x n_dim in 1..3 x n_ids in 1..3; distinct by (class, d, N)', exhaustive=True)
 
 
-TASKS = [(k, (lambda rec, k=k: build(rec, k))) for k in KINDS] + [('invariant', invariant)]
+from contracts import c05b
+TASKS = [(k, (lambda rec, k=k: build(rec, k))) for k in KINDS] + [('invariant', invariant)] + c05b.tasks()
